@@ -349,4 +349,27 @@ Section PcaProof.
       unfold mmul in *. exact He.
   Qed.
 
+  (* packaged statements used by Properties_C06.v *)
+  Theorem cov_seen_by_solvers N (X : mat F) :
+    two <> 0 -> of_nat N <> 0 ->
+    (forall i j, seen_dense (pca_matrix N X) i j = cov_spec N X i j) /\
+    (forall i j, seen_randomized (pca_matrix N X) i j = cov_spec N X i j).
+  Proof.
+    intros H2 HN. split; [exact (cov_seen_dense N X H2 HN)|exact (cov_seen_randomized N X HN)].
+  Qed.
+
+  Theorem pca_from_full_decomposition N D d (X V : mat F) (Lam : vec F) :
+    of_nat N <> 0 -> d <= D ->
+    full_contract D (cov_spec N X) V Lam ->
+    let P := select_cols V ((D - d)%nat, d) in
+    let lam := select_vals Lam ((D - d)%nat, d) in
+    eig_contract D d (cov_spec N X) P lam /\
+    uncorrelated N d (pca_embedding N D X P) lam.
+  Proof.
+    intros HN Hd Hfull P lam.
+    assert (Hc : eig_contract D d (cov_spec N X) P lam)
+      by (apply (select_contract D d (D - d)); [lia|exact Hfull]).
+    split; [exact Hc|]. exact (pca_uncorrelated N D d X P lam HN Hc).
+  Qed.
+
 End PcaProof.
